@@ -88,6 +88,17 @@ def cases(tier, variants):
                         (0, 2, "now", "nowcall", 3), (0, 2)):
                     yield dict(part="lat", var=v, prob=pn, ck=ck, maxiter=mi, maxfun=mf,
                                maxls=ml, ftol=ft, gtol=gi, ftarget=ti, cb=ci)
+    # checkpoints whose counters differ (produced with finite differences, or by an
+    # early target stop: njev < nfev), restarted with a callable gradient and a budget a
+    # few evaluations above the checkpoint's count
+    for v in variants:
+        for pn in ("rosen", "qp", "exp5"):
+            for ck in (1, 3, 6):
+                for dm in (1, 2, 3):
+                    for ml in (3, 20):
+                        yield dict(part="lat", var=v, prob=pn, ck=ck, ckjac="2-point",
+                                   maxiter=ck + 3, maxfun=("ck+", dm), maxls=ml, ftol=0.0,
+                                   gtol=0, ftarget=0, cb=0)
     if tier == "quick":
         yield from E.env_cases(6, 2, variants)
     else:
@@ -158,7 +169,8 @@ def run(case):
     ck = None
     nit0, nfev0 = 0, 1
     if case["ck"] is not None:
-        ck = minimize_lbfgsb(x0=x0.copy(), fun=f, jac=(g if jmode == "callable" else jmode),
+        ck = minimize_lbfgsb(x0=x0.copy(), fun=f,
+                             jac=case.get("ckjac") or (g if jmode == "callable" else jmode),
                              bounds=bounds, maxiter=case["ck"], ftol=0.0, gtol=1e-12, maxcor=3)
         ck = copy.deepcopy(ck)
         nit0, nfev0 = int(ck.nit), int(ck.nfev)
@@ -188,8 +200,10 @@ def run(case):
         r = (cbl != "never") and cnt["cb"] >= cbl
         cnt["cbtrue"] = cnt["cbtrue"] or r
         return r
-    kw = dict(maxiter=case["maxiter"], maxfun=case["maxfun"], maxls=case["maxls"],
-              ftol=case["ftol"])
+    mf = case["maxfun"]
+    if isinstance(mf, (list, tuple)):
+        mf = nfev0 + int(mf[1])
+    kw = dict(maxiter=case["maxiter"], maxfun=mf, maxls=case["maxls"], ftol=case["ftol"])
     ck_before = copy.deepcopy(ck)
     try:
         res = minimize_lbfgsb(x0=x0, fun=ff, jac=jac, bounds=bounds, maxcor=3,
